@@ -108,11 +108,16 @@ def build_jobs(ctx, rng):
              "chunkings": ch, "kh": kh, "kw": kw, "passes": passes, "xs": None, "ys": None, "res": None}
         if rng.random() < 0.35:
             j["layout"] = rng.choice(["F", "T", "S", "R"])      # same values, different buffer layout
+        if rng.random() < 0.25:
+            j["dims"] = rng.choice([["lat", "lon"], ["row", "col"], ["northing", "easting"]])
         if geo == "res":
             j["res"] = [2.0, 3.0]
         elif geo == "coords":
             j["xs"] = [10 + 2.0 * c for c in range(W)]
             j["ys"] = [50 - 0.5 * r for r in range(H)]
+        elif geo == "ascdesc":
+            j["xs"] = [40 - 1.5 * c for c in range(W)]        # descending x, ascending y, offsets, non-square
+            j["ys"] = [-7 + 0.25 * r for r in range(H)]
         elif geo == "unit":
             j["xs"] = [float(c) for c in range(W)]
             j["ys"] = [float(H - 1 - r) for r in range(H)]
@@ -125,7 +130,7 @@ def build_jobs(ctx, rng):
         for f in FUNCS_STENCIL:
             # never the default azimuth/altitude: a parameter dropped on one backend must show
             p = {"az": rng.choice([0, 90, 135, 315]), "alt": rng.choice([10, 45, 80])} if f == "hillshade" else {}
-            add(f, f, p, H, W, "float64" if si == 0 else dtA, "floatinf", geo=rng.choice(["res", "coords", "unit"]))
+            add(f, f, p, H, W, "float64" if si == 0 else dtA, "floatinf", geo=rng.choice(["res", "coords", "unit", "ascdesc"]))
             if not quick:
                 add(f, f, p, H, W, dtB, "float", geo="coords")
         add("focal_mean", "focal_mean", {"passes": 1, "excludes": ["nan"]}, H, W, "float64", "float", passes=1)
